@@ -96,9 +96,15 @@ def generate(report):
             try:
                 s2 = find_in(src, hdr)
                 _, _, body = R.find_fn(s2, "sub", 0)
-                if re.sub(r"\s+", "", body) not in ("{self+(-other)}", "self+(-other)"):
-                    raise Untranslatable("sub body is not `self + (-other)`: %s" % body.strip()[:80])
-                out += "Definition %s %s : (Z * Z * Z) :=\n  %s.\n\n" % (cname, args, rhs)
+                if re.sub(r"\s+", "", re.sub(r"//[^\n]*", "", body)) in ("{self+(-other)}", "self+(-other)"):
+                    out += "Definition %s %s : (Z * Z * Z) :=\n  %s.\n\n" % (cname, args, rhs)
+                else:
+                    # written out coefficient-wise (or in any other form inside the translated subset): translated like
+                    # the other operators; the proofs then have to show it equal to the hand model
+                    s3 = s2.replace("other: Self", "other: XFieldElement").replace("-> Self", "-> XFieldElement")
+                    s3 = re.sub(r"//[^\n]*", "", s3)
+                    selfty = "bfe" if "for BFieldElement" in hdr else "xfe"
+                    out += R.translate_fn(ctx, normalise(s3), "sub", cname, selfty, 0, [])
             except Untranslatable as ex:
                 report.append(("XFieldGen", cname, str(ex)))
     finally:
